@@ -338,7 +338,35 @@ def plan_C16(chk, tier, seed):
         log("TLC %s: %d distinct states, %d vectors, %.1fs" % (run, r["distinct"], r["n_vec"], r["wall"]))
         chk.add_tlc(r)
         vecs[cfg] = sorted(open(r["vec_path"]).read().splitlines())
-        judge_vectors(chk, cfg, r, run, ["C16"])
+        main_ok = True
+        try:
+            judge_vectors(chk, cfg, r, run, ["C16"])
+        except ToolError as e:
+            if "harness build failed" not in str(e):
+                raise
+            # a public struct changed shape (member removed / renamed / gated): the projection code no
+            # longer compiles.  The thin wire-level harness still does; judge on the wire.
+            main_ok = False
+            chk.notes.append("main harness does not build for %s (API change); judged by the wire-level harness only" % cfg)
+        # strictness and whole-configuration round trips, judged on the wire (no struct field is touched)
+        wire_cfgs = ALL8 if tier == "thorough" else ["none", "gif", "lb+tpp", "all"]
+        if cfg in wire_cfgs:
+            for cases, module, inv2 in (("StrictCases", "MC_Features", ["TypeOK", "Emit"]),
+                                        ("MC_Cases", "MC_RoundTrip", ["TypeOK", "RoundTrip", "Emit"])):
+                run2 = "C16.%s.%s.%s" % (module, cases, cfg)
+                r2 = tlc(module, scenario_cfg(cfg, cases, inv2), run2, workers=8, timeout=1800)
+                if not r2["ok"]:
+                    raise ToolError("TLC %s failed (model-level):\n%s" % (run2, "\n".join(r2["log"][-40:])))
+                chk.add_tlc(r2)
+                s3, recs3 = replay_wire(cfg, r2["vec_path"], run2, props=["C16"])
+                chk.replayed += s3.get("compared", 0)
+                for x in recs3[:40]:
+                    x["cfg"] = cfg
+                    chk.violation(x, "wire-level harness: %s %s deviates from the model under configuration %s: diff=%s" % (
+                        x.get("op"), (x.get("vector") or {}).get("tag"), cfg, x.get("diff")))
+                if s3.get("aborted"):
+                    chk.violation({"cfg": cfg, "vector": {"op": "wire", "run": run2}, "outcome": "abort"},
+                                  "the wire-level harness aborted: %s" % s3.get("stderr", "")[-300:])
     # the model's own transcripts must be identical in every configuration
     ref = vecs["none"]
     for cfg in cfgs:
@@ -509,9 +537,12 @@ def plan_C04(chk, tier, seed):
         # (ii) structure-level faults and limits (TLC-generated), judged by the C04 predicates
         runs = []
         for module, cases, extra in (("MC_Faults", "MC_Cases", '    SeedKinds = {"min", "full"}\n'),
-                                     ("MC_Lattice", "MC_Cases", "")):
+                                     ("MC_Lattice", "MC_Cases", ""),
+                                     ("MC_Truncate", "C04_Cases", "    Deep = FALSE\n")):
             run = "C04.%s.%s" % (module, cfg)
-            r = tlc(module, scenario_cfg(cfg, cases, ["TypeOK", "DecodeTotal", "Emit"], 1, extra), run, workers=10)
+            if module == "MC_Truncate" and cfg != "all":
+                continue          # text truncation does not depend on the feature configuration
+            r = tlc(module, scenario_cfg(cfg, cases, ["TypeOK", "DecodeTotal", "Emit"], 1, extra), run, workers=14)
             if not r["ok"]:
                 raise ToolError("TLC %s failed:\n%s" % (run, "\n".join(r["log"][-30:])))
             chk.add_tlc(r)
@@ -524,8 +555,9 @@ def plan_C04(chk, tier, seed):
     return ("(i) the byte-feeding automaton: TLC explores every live prefix (all 256 first bytes to 2 bytes; the six "
             "parameter-bearing commands to %d bytes) with DecodeTotal / PrefixDeterminism / LiveIsRejected and emits the "
             "table prefix -> outcome; the harness decodes EVERY byte string up to that length with the real decoder "
-            "(panics are data) and judges it by table lookup; (ii) every single structural fault and every limit "
-            "lattice point of C05 / C12; (iii) seeded byte-level mutations (bit flips, interesting bytes, insertions, "
+            "(panics and aborts are data) and judges it by table lookup; (ii) every single structural fault and every "
+            "limit lattice point of C05 / C12 and the text-capacity corpus of C13 (names whose characters straddle the "
+            "64-byte cut in every width pattern, icons around 128 bytes); (iii) seeded byte-level mutations (bit flips, interesting bytes, insertions, "
             "deletions, truncations, duplicated and spliced slices, +-1 on length heads) of those messages, each "
             "decoded twice and validated by the trace specification (outcome, determinism, status set, model equality)" % depth)
 
